@@ -140,13 +140,14 @@ func fenceMatch(
 					detect = "inside"
 				}
 			} else {
+				// The object is outside the fence spatially or was filtered out,
+				// so testObject may not have been called above. We need to check
+				// the WHERE clause before reporting "outside" or "cross": an
+				// object that the fence's filters exclude is not notified at all.
+				if match, _ := sw.fieldMatch(details.obj); !match {
+					return nil
+				}
 				if details.command != "fset" {
-					// For cross detection, the object is outside the fence spatially,
-					// so testObject wasn't called above. We need to check WHERE clause
-					// before proceeding with cross detection.
-					if match, _ := sw.fieldMatch(details.obj); !match {
-						return nil
-					}
 					// Maybe the old object and new object create a line that crosses the fence.
 					// Must detect for that possibility.
 					if !nocross && details.old != nil {
